@@ -7,6 +7,7 @@ import (
 	"math/rand"
 	"slices"
 	"strings"
+	"sync"
 	"time"
 
 	"github.com/gammazero/nexus/v3/stdlog"
@@ -99,6 +100,11 @@ type dealer struct {
 
 	actionChan chan func()
 	stopped    chan struct{}
+
+	// closeLock and closed prevent call timeout goroutines from submitting
+	// to actionChan after it is closed.
+	closeLock sync.RWMutex
+	closed    bool
 
 	// Generate registration IDs.
 	idGen *wamp.IDGen
@@ -403,6 +409,23 @@ func (d *dealer) removeSession(sess *wamp.Session) {
 
 // close stops the dealer, letting already queued actions finish.
 func (d *dealer) close() {
+	// Stop the timers of calls that are still pending, so that their
+	// goroutines exit now and not when the timeouts expire.
+	done := make(chan struct{})
+	d.actionChan <- func() {
+		for _, invk := range d.invocations {
+			if invk.timerCancel != nil {
+				invk.timerCancel()
+			}
+		}
+		close(done)
+	}
+	<-done
+
+	d.closeLock.Lock()
+	d.closed = true
+	d.closeLock.Unlock()
+
 	close(d.actionChan)
 	<-d.stopped
 	if d.debug {
@@ -915,6 +938,12 @@ func (d *dealer) syncCall(caller *wamp.Session, msg *wamp.Call) {
 			if errors.Is(timerCtx.Err(), context.Canceled) {
 				// Timer canceled. Got response from callee, or caller canceled
 				// or ended session.
+				return
+			}
+			// Do not submit the cancel to a dealer that is closed.
+			d.closeLock.RLock()
+			defer d.closeLock.RUnlock()
+			if d.closed {
 				return
 			}
 			d.actionChan <- func() {
